@@ -43,6 +43,7 @@ pub fn run(obligation: &str) -> i32 {
     let mut rep = Rep::new();
     if obligation.starts_with("C02.needs_unnesting") { c02_needs_unnesting(&mut rep); return rep.finish("C02_unnesting"); }
     if obligation.starts_with("C02.") || obligation.starts_with("C05.") { c02_c05_assembly(&mut rep); return rep.finish("C02_C05_assembly"); }
+    if obligation.starts_with("C07.") { c07_octets_to_bits(&mut rep); return rep.finish("C07_octets_to_bits"); }
     if obligation.starts_with("C14.") { c14_numbering(&mut rep); return rep.finish("C14_numbering"); }
     if obligation.starts_with("C06.int_type_token") { c06_int_type_token(&mut rep); return rep.finish("C06.int_type_token"); }
     if obligation.starts_with("C06.") { c06_integer_constraints(&mut rep); return rep.finish("C06.integer_constraints"); }
@@ -358,5 +359,20 @@ fn c02_needs_unnesting(rep: &mut Rep) {
         rep.check("C02.needs_unnesting.hoists_constructed_at_any_depth", !reaches_constructed(ty) || r, desc);
         rep.check("C02.needs_unnesting.hoists_decorated_elements_at_any_depth", !reaches_decorated(ty) || r, desc);
         rep.check("C02.needs_unnesting.only_those", !r || reaches_constructed(ty) || reaches_decorated(ty), desc);
+    }
+}
+
+// ---------------------------------------------------------------------------------------------- C07 octets -> bits
+fn c07_octets_to_bits(rep: &mut Rep) {
+    let want = |bytes: &[u8]| -> Vec<bool> { bytes.iter().flat_map(|b| (0..8).map(move |k| (b >> (7 - k)) & 1 == 1)).collect() };
+    let mut cases: Vec<Vec<u8>> = vec![vec![]];
+    for b in 0..=255u8 { cases.push(vec![b]); }
+    for a in [0u8, 1, 0x4C, 0x80, 0xC4, 0xFF] { for b in [0u8, 0x0B, 0x7F, 0x80, 0xFF] { cases.push(vec![a, b]); cases.push(vec![a, b, a]); } }
+    for bytes in &cases {
+        let got = rasn_compiler::verif_hooks::hook_octet_string_to_bit_string(bytes);
+        let desc = || format!("octets={bytes:02X?} -> bits={}", got.iter().map(|b| if *b { '1' } else { '0' }).collect::<String>());
+        rep.check("C07.octet_string_to_bit_string.every_octet_expanded_in_order", got == want(bytes), desc);
+        rep.check("C07.octet_string_to_bit_string.eight_bits_per_octet_any_length", got.len() == 8 * bytes.len(), desc);
+        rep.check("C07.is_bit_set.appends_the_comparison_bits_in_order", got == want(bytes), desc);
     }
 }
